@@ -261,7 +261,7 @@ func (r *Report) Finish(verifDir string, start time.Time) int {
 	seed := 0
 	fmt.Sscan(os.Getenv("VERIF_SEED"), &seed)
 	var sens any = []any{}
-	if b, err := os.ReadFile(filepath.Join(verifDir, "evidence", r.Prop+".sensitivity.json")); err == nil {
+	if b, err := os.ReadFile(filepath.Join(verifDir, "sensitivity", r.Prop+".json")); err == nil {
 		var parsed []any
 		if json.Unmarshal(b, &parsed) == nil {
 			sens = parsed
